@@ -587,7 +587,11 @@ def load(
                 p = -p
             r = bdd.find_or_add(i, p, q)
             umap[abs(u)] = r
-    bdd.roots.update(roots)
+    # the file numbers its nodes independently of
+    # the numbering in `bdd`: translate the roots too
+    bdd.roots.update(
+        umap[abs(r)] if r > 0 else -umap[abs(r)]
+        for r in roots)
     return bdd
 
 
